@@ -54,6 +54,11 @@ def gen(rng, tier):
     bad = [b"0", b"0x0", b"abc", b"0xg0", b"zz", b"0x0x00", b"0X00", b"x00", b"00 0", b"\xff\xfe", b"\xc3", b"0x\xc3\xa9", b"--", b"0x-1",
            b"00\x00", b"0 x00", b"\xe3\x80\x800x00", "0x00é".encode(), "００".encode(), b"0x", b"", b" ", b"\n0x\n"]
     bad += [b"0x0x41", b"0x 0x 41 42", b"0x0x0x", b"0x0x", b" 0x\n0x00", b"0X0x00", b"0x0X00", b"0x00x00", b"00x00", b"0x0x0x0x00", b"0x\t0x41", "0x 0x".encode()]
+    # long inputs whose defect comes late (a decoder that writes as it goes would emit output before failing)
+    for n in (1024, 1025, 1500, 2047, 2048, 2049, 3000, 4096):
+        good = bytes(rng.getrandbits(8) for _ in range(n)).hex()
+        for variant in (good + "g", good + "0", good[:-1], good[:n] + "zz" + good[n:], "0x" + good + "x", good + " 0x", "\n".join(good[i:i + 64] for i in range(0, len(good), 64)) + "\n0"):
+            bad.append(variant.encode())
     for b in bad:
         cases.append(Case("cli.hex_decode " + hx(b), tags=("dec", "malformed"), runner="cli"))
     for _ in range(200 if tier == "thorough" else 60):
